@@ -167,10 +167,11 @@ fn plan_c02(thorough: bool) -> Plan {
         c.cc = cc;
         cases.extend(enum_commit_histories(2, 14, 2, &a, &mk_case("empty", vec!["U2"], &c, "root", true)));
     }
+    cases.extend(crate::plans2::tombstone_family("root", thorough));
     sort_by_bound(&mut cases);
     let mut p = Plan::new(
         cases,
-        "histx: every history of D commits with at most B key actions {insert, delete, overwrite} over (i) a 14-key family diverging at bits {0,1,5,6,7,11,12,13,17,18,127,254,255} and (ii) clusters of 18..22 keys below one depth-2 and one depth-3 merkle page (page-elision threshold from both sides), for 1..64 commit workers; FinishedSession::root, Nomt::root after each commit and after a final reopen are compared with an independent from-scratch recursive trie over the model's key-value set. Non-trivial = at least one write committed.",
+        "histx: every history of D commits with at most B key actions {insert, delete, overwrite} over (i) a 14-key family diverging at bits {0,1,5,6,7,11,12,13,17,18,127,254,255} and (ii) clusters of 18..22 keys below one depth-2 and one depth-3 merkle page (page-elision threshold from both sides), for 1..64 commit workers, and (iii) the tombstone family (16/32-bucket tables × 16 bitbox seeds, 10 pages, every page / adjacent pair of pages removed, cold reopen, re-insert, reopen); FinishedSession::root, Nomt::root after each commit and after a final reopen are compared with an independent from-scratch recursive trie over the model's key-value set. Non-trivial = at least one write committed.",
     );
     p.budget_s = if thorough { 1500 } else { 40 };
     p.assumptions = vec!["collision resistance of the hasher (equal roots ⇔ equal tries)".into()];
@@ -215,6 +216,7 @@ fn structural_family(thorough: bool, buckets: &[u32]) -> Vec<Value> {
 
 fn plan_c16(thorough: bool) -> Plan {
     let mut cases = structural_family(thorough, if thorough { &[64, 256, 4096] } else { &[64, 4096] });
+    cases.extend(crate::plans2::tombstone_family("noproof", thorough));
     set_all(&mut cases, "image", json!("c16"));
     sort_by_bound(&mut cases);
     let mut p = Plan::new(
@@ -228,6 +230,7 @@ fn plan_c16(thorough: bool) -> Plan {
 
 fn plan_c19(thorough: bool) -> Plan {
     let mut cases = structural_family(thorough, if thorough { &[64, 4096, 64000] } else { &[64, 4096] });
+    cases.extend(crate::plans2::tombstone_family("noproof", thorough));
     set_all(&mut cases, "image", json!("c19"));
     sort_by_bound(&mut cases);
     let mut p = Plan::new(
